@@ -283,15 +283,22 @@ func (vc *VCache) initToVersion(d dvid.Data, v dvid.VersionID, loadMutations boo
 	if err != nil {
 		return err
 	}
+	// A marked version has its own log and the logs of all its ancestors replayed, so find the
+	// ancestors that still have to be loaded ...
+	unloaded := len(ancestors)
+	vc.mappedVersionsMu.RLock()
 	for pos, ancestor := range ancestors {
-		vc.mappedVersionsMu.Lock()
 		if _, found := vc.mappedVersions[ancestor]; found {
-			vc.mappedVersionsMu.Unlock()
-			return nil // we have already loaded this version and its ancestors
+			unloaded = pos
+			break
 		}
-		vc.mappedVersions[ancestor] = getDistFromRoot(ancestors[pos:])
-		vc.mappedVersionsMu.Unlock()
+	}
+	vc.mappedVersionsMu.RUnlock()
 
+	// ... and load them from the oldest toward v, marking each only after its log was replayed:
+	// a concurrent getMapping must never take a half-built mapping for a loaded one.
+	for pos := unloaded - 1; pos >= 0; pos-- {
+		ancestor := ancestors[pos]
 		if loadMutations {
 			ch := make(chan storage.LogMessage, 1000)
 			wg := new(sync.WaitGroup)
@@ -303,6 +310,9 @@ func (vc *VCache) initToVersion(d dvid.Data, v dvid.VersionID, loadMutations boo
 			}
 			wg.Wait()
 		}
+		vc.mappedVersionsMu.Lock()
+		vc.mappedVersions[ancestor] = getDistFromRoot(ancestors[pos:])
+		vc.mappedVersionsMu.Unlock()
 	}
 	return nil
 }
